@@ -28,8 +28,9 @@ partial def loop (h : IO.FS.Stream) (out : IO.FS.Stream) (st : Option Drive.DSta
   | "S" :: op :: rest =>
     let (lhs, impl) := Drive.splitArrow rest
     let args := lhs.takeWhile (· ≠ "##")
+    let tr := (lhs.dropWhile (· ≠ "##")).drop 1
     if worldOps.contains op then
-      let (mon', v) := Drive.monOp mon op args impl
+      let (mon', v) := Drive.monOp mon op args impl tr
       out.putStrLn v
       loop h out st mon'
     else
